@@ -173,7 +173,7 @@ def main():
         })
     m = {
         "version": 1,
-        "setup_cmd": "cd /verif && gcc -O2 -shared -fPIC -o shim/getrandom_shim.so shim/getrandom_shim.c && cd harness && CARGO_NET_OFFLINE=true cargo build --release --offline",
+        "setup_cmd": "cd /verif && gcc -O2 -shared -fPIC -o shim/getrandom_shim.so shim/getrandom_shim.c && cd harness && CARGO_NET_OFFLINE=true cargo build --release --offline && CARGO_NET_OFFLINE=true cargo build --profile nodebug --offline",
         "hooks": {
             "guard": "--cfg grmtools_verif",
             "enable": "RUSTFLAGS='--cfg grmtools_verif' via /verif/harness/.cargo/config.toml; the harness path-depends on /repo/{cfgrammar,lrtable,lrpar,lrlex} so every check rebuilds them from the working tree with the guard on",
@@ -188,7 +188,7 @@ def main():
              "kind_free_text": "library: universes, reference models (analyses, Earley, canonical LR(1), LR driver, repair search, lexer, line/col), evidence + replay writers, worker pool"},
         ],
         "checks": checks,
-        "notes": "Driver: ./check <ID> <tier> [--replay FILE]; exit 0 held / 1 VIOLATION / 2 machinery failure. Known findings: /verif/known_findings.json (never written at run time).",
+        "notes": "Every check runs two passes over the code under test: first the quick space with a harness binary built WITHOUT debug assertions and overflow checks (profile nodebug: the subject as users build it; summary folded into the evidence under coverage.pass_without_debug_assertions; not for C13, whose generated modules are compiled once), then the registered tier with debug assertions and overflow checks ON (so that corruption is loud). Driver: ./check <ID> <tier> [--replay FILE]; exit 0 held / 1 VIOLATION / 2 machinery failure. Known findings: /verif/known_findings.json (never written at run time).",
         "not_applicable": [{"property_id": p, "reason": NOT_YET} for p in ALL if p not in CHECKS],
     }
     json.dump(m, open("/verif/MANIFEST.json", "w"), indent=1)
